@@ -343,13 +343,13 @@ theorem boundary_pos (g : Grid) (i : ℕ) (hi : i < g.n) (x v bMax : ℚ)
     exact ⟨k1, k2, trivial, by simpa [hc0] using hidx, Or.inr (by rw [k3]; ring)⟩
 
 /-- Consequence for a leg of the run: any event committed strictly before the scheduled cell-boundary
-time finds the time-sliced coordinate `(x + v τ) % L` (`_time_slice_unit`) still in the recorded
-cell `i`. -/
+time finds the time-sliced coordinate `correct_position_entry(x + v τ)` (`_time_slice_unit`; `JF.pywrap`, which is
+`(x + v τ) % L` in this exact reading) still in the recorded cell `i`. -/
 theorem stays_in_cell_pos (g : Grid) (i : ℕ) (hi : i < g.n) (x v bMax : ℚ)
     (hx0 : g.cmin i ≤ x) (hx1 : x < g.cmin (i + 1)) (hv : 0 < v) (hpos : i + 1 = g.n → 0 < x)
     (τ : ℚ) (h0 : 0 ≤ τ)
     (h1 : τ < (timeToBoundary Ops.rat g.L x v (g.cmin ((i + 1) % g.n)) bMax).1) :
-    g.idx (pymod Ops.rat (x + v * τ) g.L) = i := by
+    g.idx (pywrap Ops.rat (x + v * τ) g.L) = i := by
   obtain ⟨_, hb, _⟩ := boundary_pos g i hi x v bMax hx0 hx1 hv hpos
   obtain ⟨b0, b1⟩ := hb τ h0 h1
   have hs := g.hside
@@ -361,8 +361,8 @@ theorem stays_in_cell_pos (g : Grid) (i : ℕ) (hi : i < g.n) (x v bMax : ℚ)
     have : ((i + 1 : ℕ) : ℚ) ≤ g.n := by exact_mod_cast hi
     nlinarith
   have hnn : 0 ≤ x + v * τ := le_trans (by simp only [Grid.cmin]; positivity) b0
-  have hid : pymod Ops.rat (x + v * τ) g.L = x + v * τ := by
-    rw [pymod_rat_pos _ _ hL]
+  have hid : pywrap Ops.rat (x + v * τ) g.L = x + v * τ := by
+    rw [pywrap_rat_pos _ _ hL]
     have : ⌊(x + v * τ) / g.L⌋ = 0 := by
       rw [Int.floor_eq_iff]
       refine ⟨by simpa using div_nonneg hnn hL.le, ?_⟩
@@ -450,7 +450,7 @@ example : let r := timeToBoundary Ops.rat exGrid.L (5 / 6) 2 (exGrid.cmin ((2 + 
   refine ⟨?_, this.2.2.2.1⟩
   norm_num [timeToBoundary, Grid.cmin, Grid.L, exGrid]
 
-example : exGrid.idx (pymod Ops.rat (5 / 6 + 2 * (1 / 24)) exGrid.L) = 2 :=
+example : exGrid.idx (pywrap Ops.rat (5 / 6 + 2 * (1 / 24)) exGrid.L) = 2 :=
   stays_in_cell_pos exGrid 2 (by decide) (5 / 6) 2 0 (by norm_num [Grid.cmin, exGrid])
     (by norm_num [Grid.cmin, exGrid]) (by norm_num) (by intro _; norm_num) (1 / 24) (by norm_num)
     (by norm_num [timeToBoundary, Grid.cmin, Grid.L, exGrid])
